@@ -207,9 +207,10 @@ def rule_U2(F, R):
                         is_from = rng[0] == "A" and rng[1].endswith("RangeFrom")
                         if is_uns and is_from:
                             start = dict(rng[3]).get("start")
-                            good = _has(start, lambda v: v[0] == "B" and v[1] in ("SubWithOverflow", "Sub")
-                                        and _has(v[2], lambda w: w[0] == "C" and w[2].endswith("::len") and _has(w, lambda z: z[0] == "C" and z[2].endswith("unsynced_operations")))
-                                        and _has(v[3], lambda w: w[0] == "C" and w[2].endswith("::len") and _has(w, lambda z: z == undo_param)))
+                            _len_uns = lambda w: w[0] == "C" and w[2].endswith("::len") and _has(w, lambda z: z[0] == "C" and z[2].endswith("unsynced_operations"))
+                            _len_undo = lambda w: w[0] == "C" and w[2].endswith("::len") and _has(w, lambda z: z == undo_param)
+                            good = _has(start, lambda v: (v[0] == "B" and v[1] in ("SubWithOverflow", "Sub") and _has(v[2], _len_uns) and _has(v[3], _len_undo))
+                                        or (v[0] == "C" and isinstance(v[2], str) and v[2].endswith("::checked_sub") and len(v[3]) == 2 and _has(v[3][0], _len_uns) and _has(v[3][1], _len_undo)))
                             other_is_undo = _has(s2, lambda z: z == undo_param)
                             if good and other_is_undo:
                                 found_eq = True
